@@ -97,10 +97,12 @@ func init() {
 	}
 	judge := mon.Kind(p, "sighash", func(c *mon.Ctx, in *shCase) { shJudge(c, in, true) })
 	alias := mon.Kind(p, "alias", c03JudgeAlias)
+	seq := mon.Kind(p, "sequence", func(c *mon.Ctx, in *shSeq) { shJudgeSeq(c, in, true) })
 	p.Run = func(c *mon.Ctx) {
 		if !shRun(c, "C03", false, judge) {
 			return
 		}
+		shRunSeq(c, false, seq)
 		c.Phase("constant-not-shared")
 		for n := uint64(0); n < 64; n++ {
 			if !c.Case(n) {
